@@ -11,6 +11,7 @@ import (
 	"encoding/json"
 	"fmt"
 	"os"
+	"os/exec"
 	"path/filepath"
 	"runtime"
 	"runtime/debug"
@@ -18,6 +19,7 @@ import (
 	"strconv"
 	"strings"
 	"sync"
+	"syscall"
 	"time"
 )
 
@@ -67,6 +69,7 @@ type Run struct {
 	obsOut string
 	obs    map[string]*obsGroup
 
+	shard       string // non-empty: this process is a worker for one group; Finish prints a JSON report
 	replayGroup string
 	replayCase  string
 	replayKey   string
@@ -84,6 +87,12 @@ func Start(id, level string) *Run {
 		switch args[i] {
 		case "quick", "thorough":
 			r.Tier = args[i]
+		case "--shard":
+			if i+1 >= len(args) {
+				r.Harness("missing shard name")
+			}
+			r.shard = args[i+1]
+			i++
 		case "--replay":
 			if i+1 >= len(args) {
 				r.Harness("missing replay path")
@@ -315,7 +324,18 @@ func (r *Run) Parallel(names []string, body func(group string)) {
 					r.FailIn(n, "panic/"+n, "group", fmt.Sprintf("unrecovered panic in group %s: %v\n%s", n, e, trimStack(debug.Stack())), nil)
 				}
 			}()
+			t0 := time.Now()
 			f()
+			if d := time.Since(t0).Seconds(); d > 20 {
+				r.mu.Lock()
+				gw, _ := r.extra["slow_groups_wall_s"].(map[string]float64)
+				if gw == nil {
+					gw = map[string]float64{}
+				}
+				gw[n] = float64(int(d))
+				r.extra["slow_groups_wall_s"] = gw
+				r.mu.Unlock()
+			}
 		}()
 	}
 	wg.Wait()
@@ -474,11 +494,135 @@ func sanitize(s string) string {
 	return out
 }
 
+// ---- worker processes: a driver re-executes itself with "--shard <group> <tier>" to run
+// one group in its own process (the scheduler of engine S is process-global; heavy groups
+// also get memory isolation). The worker prints one JSON report, the parent merges it.
+type shardReport struct {
+	Evals       int64          `json:"evals"`
+	States      int64          `json:"states"`
+	Transitions int64          `json:"transitions"`
+	Traces      int64          `json:"traces"`
+	Tags        []string       `json:"tags"`
+	Samples     []any          `json:"samples"`
+	Extra       map[string]any `json:"extra"`
+	Caps        []string       `json:"caps"`
+	Viol        []*violation   `json:"viol"`
+	Obs         map[string]any `json:"obs"`
+}
+
+func (r *Run) Shard() string { return r.shard }
+
+func (r *Run) finishShard() {
+	rep := shardReport{Evals: r.evals, States: r.states, Transitions: r.transitions, Traces: r.traces, Samples: r.samples, Extra: r.extra, Caps: r.capsHit}
+	for t := range r.tags {
+		rep.Tags = append(rep.Tags, t)
+	}
+	sort.Strings(rep.Tags)
+	for _, k := range r.vorder {
+		rep.Viol = append(rep.Viol, r.viol[k])
+	}
+	b, err := json.Marshal(rep)
+	if err != nil {
+		r.Harness("shard report: " + err.Error())
+	}
+	fmt.Printf("SHARD-REPORT %s\n", b)
+	os.Exit(0)
+}
+
+// RunShard executes group `name` in a worker process and merges its report. extraEnv may be nil.
+func (r *Run) RunShard(name string, memLimitMB int, extraEnv []string) {
+	args := []string{"--shard", name, r.Tier}
+	cmd := exec.Command(os.Args[0], args...)
+	budget := int(time.Until(r.deadline).Seconds())
+	if budget < 5 {
+		budget = 5
+	}
+	cmd.Env = append(os.Environ(), fmt.Sprintf("VERIF_SEED=%d", r.seed), fmt.Sprintf("VERIF_BUDGET_S=%d", budget))
+	cmd.Env = append(cmd.Env, extraEnv...)
+	if memLimitMB > 0 {
+		cmd.Env = append(cmd.Env, fmt.Sprintf("GOMEMLIMIT=%dMiB", memLimitMB))
+	}
+	var stderr strings.Builder
+	cmd.Stderr = &stderr
+	// generous wall-clock guard against a worker that never returns (never a violation by itself)
+	guard := time.Duration(budget)*time.Second*3 + 10*time.Minute
+	timer := time.AfterFunc(guard, func() {
+		if cmd.Process != nil {
+			cmd.Process.Signal(syscall.SIGQUIT) // goroutine dump on stderr
+			time.Sleep(2 * time.Second)
+			cmd.Process.Kill()
+		}
+	})
+	out, err := cmd.Output()
+	timedOut := !timer.Stop()
+	var rep shardReport
+	found := false
+	for _, line := range strings.Split(string(out), "\n") {
+		if strings.HasPrefix(line, "SHARD-REPORT ") {
+			if json.Unmarshal([]byte(line[len("SHARD-REPORT "):]), &rep) == nil {
+				found = true
+			}
+		}
+	}
+	if !found {
+		se := stderr.String()
+		os.MkdirAll(filepath.Join(Root, ".work/crash"), 0o755)
+		os.WriteFile(filepath.Join(Root, ".work/crash", sanitize(name)+".stderr"), []byte(se), 0o644)
+		if len(se) > 2500 {
+			se = se[:1200] + "\n...\n" + se[len(se)-1200:]
+		}
+		if timedOut {
+			r.Cap("worker for " + name + " did not finish within its guard time and was killed (no verdict for this group)")
+			fmt.Printf("NOTE check=%s worker %s killed after %v; see .work/crash\n", r.ID, name, guard)
+			return
+		}
+		if strings.Contains(se, "panic:") || strings.Contains(se, "fatal error:") {
+			// a crash of the worker inside library code is an observation about the library
+			r.FailIn(name, "crash/"+name, "worker", "worker process for "+name+" crashed: "+se, nil)
+			return
+		}
+		r.Harness(fmt.Sprintf("worker for %s produced no report (err=%v): %s", name, err, se))
+	}
+	r.mu.Lock()
+	rc := r.recheck
+	r.mu.Unlock()
+	if !rc {
+		r.Add(int(rep.Evals))
+		r.AddStates(int(rep.States))
+		r.AddTransitions(int(rep.Transitions))
+		r.AddTraces(int(rep.Traces))
+		for _, t := range rep.Tags {
+			r.Tag(t)
+		}
+		for _, s := range rep.Samples {
+			r.Sample(s)
+		}
+		for k, v := range rep.Extra {
+			r.Set(k, v)
+		}
+		for _, c := range rep.Caps {
+			r.Cap(c)
+		}
+	}
+	for _, v := range rep.Viol {
+		for i := 0; i < v.Count; i++ {
+			r.FailIn(name, v.Key, v.CaseID, v.Desc, v.Detail)
+			if i > 2 {
+				break
+			}
+		}
+	}
+}
+
 // Finish re-executes unknown violations for determinism, writes evidence and exits.
 func (r *Run) Finish() {
+	if r.shard != "" {
+		r.finishShard()
+	}
 	wall := time.Since(r.start).Seconds()
 	nviol := 0
-	var lines []string
+	var lines, unrepro []string
+	nun := 0
 	sort.Strings(r.vorder)
 	for _, key := range r.vorder {
 		v := r.viol[key]
@@ -499,9 +643,14 @@ func (r *Run) Finish() {
 				r.replayKey, r.replayCase = "", ""
 				r.mu.Unlock()
 				if !found {
-					r.Harness(fmt.Sprintf("violation %s case %s did not reproduce on re-execution %d (nondeterministic harness?) desc=%s", key, v.CaseID, k+1, v.Desc))
+					unrepro = append(unrepro, fmt.Sprintf("UNREPRODUCIBLE check=%s key=%s case=%s did not fail again on re-execution %d (not reported as a violation): %s", r.ID, key, v.CaseID, k+1, oneLine(v.Desc)))
+					break
 				}
 			}
+		}
+		if len(unrepro) > nun {
+			nun = len(unrepro)
+			continue
 		}
 		nviol++
 		dir := filepath.Join(Root, "replay", r.ID)
@@ -521,8 +670,15 @@ func (r *Run) Finish() {
 	for _, l := range lines {
 		fmt.Println(l)
 	}
+	for _, l := range unrepro {
+		fmt.Println(l)
+	}
 	if nviol > 0 {
 		os.Exit(1)
+	}
+	if len(unrepro) > 0 {
+		fmt.Printf("HARNESS-ERROR check=%s %d observation(s) could not be reproduced\n", r.ID, len(unrepro))
+		os.Exit(2)
 	}
 	if r.replayGroup != "" {
 		fmt.Printf("replay: case %q of group %q did not violate\n", r.replayCase, r.replayGroup)
